@@ -96,6 +96,22 @@ func (m *fsmMonitor) check(preBz []byte, inst *sm.FSMInstance, ev string, args [
 		if string(cur) != pre.State {
 			m.report("C05", "reject_noop", fmt.Sprintf("rejected event moved the machine %s -> %s", pre.State, cur), idx, ev, args)
 		}
+		// C06 "exactly when t distinct participants have delivered": a well-formed answer to the current batch (its batch id,
+		// a stamp, at least one partial signature, each with an identifier and a value) from a participant who is in the quorum
+		// and still awaited IS a delivery: it is counted, whoever the participant is
+		if sp := pre.Payload.SigningProposalPayload; sp != nil && pre.State == "state_signing_await_partial_signs" &&
+			ev == "event_signing_partial_sign_received" && len(args) > 4 && args[0] == "partialSigns" {
+			m.count("C06.delivery_refused")
+			wellFormed := string(unhexTok(args[1])) == sp.BatchID && sp.BatchID != "" && !parseTimeTok(args[3]).IsZero() && atoi(args[4]) > 0 && len(args) >= 5+2*atoi(args[4])
+			for i := 0; wellFormed && i < atoi(args[4]); i++ {
+				if len(unhexTok(args[5+2*i])) == 0 || len(unhexTok(args[6+2*i])) == 0 {
+					wellFormed = false
+				}
+			}
+			if part, in := sp.Quorum[atoi(args[2])]; wellFormed && in && part.Status == 0 {
+				m.report("C06", "delivery_counts", fmt.Sprintf("a well-formed answer to the current batch from participant %s, who is awaited, was refused", args[2]), idx, ev, args)
+			}
+		}
 		return
 	}
 	// from here: accepted
